@@ -146,15 +146,23 @@ fn judge_new_lengths_only(conf: MessageConfig, loc: &mut Local) {
     }
 }
 
-fn judge_storage(m: &RefMsg, ts: Option<(u32, u32)>, loc: &mut Local) {
+fn judge_storage(m: &RefMsg, ts: Option<(u32, u32)>, prior: usize, loc: &mut Local) {
     let mut base = to_crate(m);
     base.storage_header = None;
     loc.evals += 1;
     loc.traces += 1;
     loc.transitions += 2;
     let before = base.as_bytes();
-    loc.state(mix(fnv64(&before), ts.map(|t| mix(t.0 as u64, t.1 as u64)).unwrap_or(7)), true);
-    let b2 = base.clone();
+    loc.state(mix(mix(fnv64(&before), prior as u64), ts.map(|t| mix(t.0 as u64, t.1 as u64)).unwrap_or(7)), true);
+    // the message may already carry a storage header (re-stamping a parsed or previously stamped
+    // message): the result must not depend on it
+    let mut b2 = base.clone();
+    b2.storage_header = match prior {
+        0 => None,
+        1 => Some(StorageHeader { timestamp: DltTimeStamp { seconds: 7, microseconds: 8 }, ecu_id: "LOGR".into() }),
+        2 => Some(StorageHeader { timestamp: DltTimeStamp { seconds: 0, microseconds: 0 }, ecu_id: "".into() }),
+        _ => Some(StorageHeader { timestamp: DltTimeStamp { seconds: u32::MAX, microseconds: 999_999 }, ecu_id: "ECU".into() }),
+    };
     match catch(|| b2.add_storage_header(ts.map(|(s, us)| DltTimeStamp { seconds: s, microseconds: us }))) {
         Err(p) => loc.violation("add_storage_header panics", format!("add_storage_header panicked ({}) for {}", p, fp(&base)), json!({"message": fp(&base)})),
         Ok(with) => {
@@ -180,7 +188,7 @@ fn judge_storage(m: &RefMsg, ts: Option<(u32, u32)>, loc: &mut Local) {
                 loc.outcome(if ts.is_some() { "storage header prepended (given time)" } else { "storage header prepended (clock)" });
             } else {
                 loc.outcome("storage header wrong");
-                loc.violation("add_storage_header does not just prepend the 16-byte header", format!("time {:?}, header ECU {:?}: serialisation {} (before: {}); other fields unchanged: {}", ts, m.ecu, hex_short(&ser), hex_short(&before), rest_same), json!({"message": fp(&base)}));
+                loc.violation("add_storage_header does not just prepend the 16-byte header", format!("time {:?}, header ECU {:?}, storage header before the call: variant {} (0 none, 1 LOGR, 2 empty id, 3 ECU): serialisation {} (before: {}); other fields unchanged: {}", ts, m.ecu, prior, hex_short(&ser), hex_short(&before), rest_same), json!({"message": fp(&base)}));
             }
         }
     }
@@ -234,14 +242,14 @@ pub fn run(ctx: &Ctx) {
         let seeds = seed_messages(ctx.tier);
         let idv = ids(Tier::Thorough);
         let times: Vec<Option<(u32, u32)>> = vec![None, Some((0, 0)), Some((1, 999_999)), Some((0x0102_0304, 0x0005_0607)), Some((u32::MAX, u32::MAX)), Some((0x8000_0000, 1_000_000))];
-        let sp = Space::new(&[seeds.len(), idv.len() + 1, times.len()]);
+        let sp = Space::new(&[seeds.len(), idv.len() + 1, times.len(), 4]);
         let s2 = sp.clone();
         let (seeds, idv, times) = (&seeds, &idv, &times);
-        ctx.run_family(Family::new("c15.add_storage_header", sp.size(), "every seed message x header ECU id {absent, each id of the alphabet} x timestamp {None (clock), 5 given values}", move |i, loc| {
+        ctx.run_family(Family::new("c15.add_storage_header", sp.size(), "every seed message x header ECU id {absent, each id of the alphabet} x timestamp {None (clock), 5 given values} x storage header already present before the call {none, id 'LOGR', empty id, id 'ECU'}", move |i, loc| {
             let c = s2.coords(i);
             let mut m = seeds[c[0]].clone();
             m.ecu = if c[1] == 0 { None } else { Some(idv[c[1] - 1].to_string()) };
-            judge_storage(&normalize(m), times[c[2]], loc);
+            judge_storage(&normalize(m), times[c[2]], c[3], loc);
         }));
     }
     // valid()
